@@ -981,14 +981,14 @@ impl World {
                     self.classes.insert("growth>=100-in-one-op".into());
                 }
             }
-            Op::Reorg { depth, extra, first, later_at, later } => {
+            Op::Reorg { depth, extra, first, later_at, later, evict } => {
                 let depth = (*depth as usize).min(self.node.lock().active.len().saturating_sub(3));
                 let n_new = depth + *extra as usize;
                 let mut contents: Vec<Vec<Transaction>> = vec![vec![]; n_new];
                 contents[0] = first.iter().map(|r| tx_of(*r)).collect();
                 let at = (1 + *later_at as usize).min(n_new - 1);
                 contents[at].extend(later.iter().map(|r| tx_of(*r)));
-                self.node.lock().reorg(depth, &contents);
+                self.node.lock().reorg(depth, &contents, *evict);
                 self.reorgs.push((depth as u8, *extra));
                 self.classes.insert(format!("reorg-depth-{}", match depth { 0 => "0", 1 => "1", 2..=3 => "2-3", 4..=6 => "4-6", 7..=12 => "7-12", _ => ">12" }));
             }
